@@ -1080,9 +1080,16 @@ def tv_resize(interp, img, size, interpolation=None, max_size=None, antialias=Tr
         flat = [rd(list(ix)) for ix in _it.product(*[range(d) for d in img.shape])]
         res = tvf.resize(torch.tensor(flat, dtype=torch.float32).reshape(img.shape), size=[h, w])
         return T.from_flat(list(res.shape), res.reshape(-1).tolist(), FLOAT, kind=img.kind)
-    nm = V.fresh_name("resized")
     r = len(shape)
-    f = z3.Function(nm, *([z3.IntSort()] * r + [z3.RealSort()]))
+    # resize is a function: resizing the same tensor (same storage version) to the same size
+    # twice gives the same pixels
+    cache = interp.path.ghosts.setdefault("resize_fns", {})
+    key = (id(img.owner()), id(img), getattr(img.owner(), "version", 0), T._key([h, w]))
+    if key in cache:
+        f = cache[key][0]
+    else:
+        f = z3.Function(V.fresh_name("resized"), *([z3.IntSort()] * r + [z3.RealSort()]))
+        cache[key] = (f, img)   # keeps img alive so that ids are not reused
     out = STensor(shape, FLOAT if img.dtype == FLOAT else img.dtype, fn=(lambda idx: V.finite_real(f(*[V.zint(i) for i in idx]))) if img.dtype == FLOAT else (lambda idx: z3.ToInt(f(*[V.zint(i) for i in idx]))), kind=img.kind)
     out.resize_of = (img, img.shape[-2], img.shape[-1], h, w)
     return out
@@ -1195,3 +1202,30 @@ def torch_unique(interp, t, sorted=True, return_inverse=False, return_counts=Fal
 @method("unique")
 def t_unique(interp, t, sorted=True, return_inverse=False, return_counts=False, dim=None):
     return torch_unique(interp, t, sorted, return_inverse, return_counts, dim)
+
+
+
+@lib("torchvision.transforms.v2.functional.rgb_to_grayscale", "torchvision.transforms.functional.rgb_to_grayscale")
+def tv_rgb_to_grayscale(interp, img, num_output_channels=1):
+    """torchvision docs: L = 0.2989 R + 0.587 G + 0.114 B on the channel axis (-3); a
+    single-channel input is returned as is (replicated when 3 output channels are asked)."""
+    if img.rank < 3:
+        raise PyExc("TypeError", ("Input image tensor should have at least 3 dimensions",))
+    ch = img.shape[-3]
+    if num_output_channels not in (1, 3):
+        raise PyExc("ValueError", ("num_output_channels should be either 1 or 3",))
+    if not isinstance(ch, int) or ch not in (1, 3):
+        raise Unsupported("rgb_to_grayscale on %s channels" % (ch,))
+    rd = img.reader()
+    k = img.rank - 3
+
+    def fn(idx):
+        idx = list(idx)
+        if ch == 1:
+            return T.cast_scalar(rd(idx[:k] + [0] + idx[k + 1:]), FLOAT)
+        r_, g_, b_ = [T.cast_scalar(rd(idx[:k] + [c_] + idx[k + 1:]), FLOAT) for c_ in range(3)]
+        return V.f_add(V.f_add(V.f_mul(0.2989, r_), V.f_mul(0.587, g_)), V.f_mul(0.114, b_))
+
+    shape = list(img.shape)
+    shape[k] = num_output_channels
+    return T.from_fn(shape, FLOAT, fn, kind=img.kind)
